@@ -1898,7 +1898,8 @@ class Interp(object):
         if name == 'enumerate':
             if isinstance(a0, (list, tuple)) or (isinstance(a0, (str, bytes)) and len(a0) <= 4096):
                 st = args[1] if len(args) > 1 and isinstance(args[1], int) else kwargs.get('start', 0)
-                return [(i, x) for i, x in enumerate(a0, st if isinstance(st, int) else 0)]
+                # (enumerate is an iterator: a loop over it and next() calls inside the loop draw from the same supply)
+                return GenList((i, x) for i, x in enumerate(a0, st if isinstance(st, int) else 0))
             return Obj('enumerate', {'of': a0})
         if name == 'zip':
             if all(isinstance(x, (list, tuple)) for x in args):
